@@ -295,6 +295,12 @@ def build(S):
         S.contract("find_intersections[edge parallel to the segment next to a crossed edge]", FN_FI, run_fi_parallel_neighbour, expected_exceptions=(), shape="two wall edges, one exactly parallel to the segment", max_paths=6000)
         S.contract("find_intersections[shared-vertex]+wallIntersection", FN_WI, run_fi_shared_vertex, expected_exceptions=(), shape="two wall edges", max_paths=6000)
         S.contract("wallIntersection[cases]", FN_WI, run_wi_cases, shape="0..3 rows")
+        # what wallIntersection hands to find_intersections: the wall WITH its closing edge
+        from . import C11
+
+        S.under_contract("hypnotoad.core.equilibrium:Equilibrium.__init__")
+        S.extraction.append(dict(function="Equilibrium.__init__", sliced="the two closed_wall assignments"))
+        S.contract("closed_wallarray (every wall edge, the closing one included, reaches find_intersections)", "hypnotoad.core.equilibrium:Equilibrium.__init__", C11.run_closed, shape="4 vertices")
         S.contract("closest_approach", FN_CA, run_closest, shape="2-vectors")
         for n in (3, 4, 5, 6):
             S.contract("polygons.area[n=%d]" % n, FN_PA, run_area(n), shape="n=%d" % n)
